@@ -50,6 +50,7 @@ def ancestors : String → List String
   | "KeyError" => ["LookupError", "Exception", "BaseException"]
   | "IndexError" => ["LookupError", "Exception", "BaseException"]
   | "OverflowError" => ["ArithmeticError", "Exception", "BaseException"]
+  | "NotRepresented" => []       -- not a Python class: what a meaning below answers where it does not represent CPython; no handler catches it
   | _ => ["Exception", "BaseException"]
 
 /-- `issubclass(c, base)` on class names -/
